@@ -75,11 +75,11 @@ Proof. intros H. inversion H. reflexivity. Qed.
 Section Shapes.
 Variables snake camel screaming : str -> str.
 Notation fields_ok := (fields_ok snake).
-Notation inline_ok := (inline_ok snake camel screaming true).
-Notation props_inline_ok := (props_inline_ok snake camel screaming true).
-Notation property_inline_ok := (property_inline_ok snake camel screaming true).
-Notation nested_ok := (nested_ok snake camel screaming true).
-Notation nesteds_ok := (nesteds_ok snake camel screaming true).
+Notation inline_ok := (inline_ok snake camel screaming).
+Notation props_inline_ok := (props_inline_ok snake camel screaming).
+Notation property_inline_ok := (property_inline_ok snake camel screaming).
+Notation nested_ok := (nested_ok snake camel screaming).
+Notation nesteds_ok := (nesteds_ok snake camel screaming).
 
 Lemma fields_ok_shape io n ps fs fs' :
   Forall2 field_shape_eq fs fs' -> fields_ok io n ps fs -> fields_ok io n ps fs'.
@@ -178,7 +178,7 @@ Qed.
 
 (* the link step keeps the file contract *)
 Lemma link_file_main f df df' :
-  link_file df = Ok df' -> main_file_ok snake camel screaming true f df -> main_file_ok snake camel screaming true f df'.
+  link_file df = Ok df' -> main_file_ok snake camel screaming f df -> main_file_ok snake camel screaming f df'.
 Proof.
   unfold link_file. intros H. inv_ok H. inversion H. subst df'. clear H.
   intros (H1 & H2 & H3 & H4 & H5 & H6). pose proof (link_msgs_shape (fl_pkg df) (fl_msgs df)) as HF.
@@ -218,11 +218,11 @@ Qed.
 
 Lemma cv_files_main exports fs D f :
   cv_files snake camel screaming exports fs = Ok D -> In (BJ f) fs ->
-  exists df, In df D /\ main_file_ok snake camel screaming true f df.
+  exists df, In df D /\ main_file_ok snake camel screaming f df.
 Proof.
   revert D. induction fs as [|x r IH]; intros D H Hin; [destruct Hin|].
   cbn [J5sConvert.cv_files] in H. destruct x as [j|p].
-  - inv_ok H. inversion H. subst D. destruct Hin as [Heq|Hin].
+  - destruct (file_lists_ok j) eqn:Elists; [|discriminate]. inv_ok H. inversion H. subst D. destruct Hin as [Heq|Hin].
     + inversion Heq. subst j. destruct (cv_file_main _ _ _ _ _ _ E) as (df & rest & -> & Hok).
       exists df. split; [left; reflexivity|exact Hok].
     + destruct (IH _ E0 Hin) as (df & Hd & Hok). exists df. split; [apply in_or_app; right; exact Hd|exact Hok].
@@ -271,7 +271,7 @@ Qed.
 
 Theorem compile_sound bd pkg D :
   compile_package snake camel screaming bd pkg = Ok D ->
-  package_contract snake camel screaming true bd pkg D.
+  package_contract snake camel screaming bd pkg D.
 Proof.
   intros H. apply compile_package_inv in H. destruct H as (a & E & _ & E0 & _). unfold convert_package in E.
   intros f Hin Hp. pose proof (in_pkg_files _ _ _ Hin Hp) as Hpf.
